@@ -229,13 +229,14 @@ def order_has_acquire(o):
 
 
 def expansions(root, macro):
-    """Top-most nodes produced directly by the body of `macro` below root."""
+    """Top-most nodes that span an expansion of `macro`: first AND last token produced directly by its body."""
     out = []
     stack = [root]
     while stack:
         n = stack.pop()
         ms = n.macros
-        if ms and ms[0] == macro:
+        me = n.d.get("me") or []
+        if ms and ms[0] == macro and me and me[0] == macro:
             out.append(n)
             continue
         stack.extend(reversed(n.children))
